@@ -22,18 +22,39 @@ type baseGroup struct {
 var baseGroups = map[string]baseGroup{
 	"DECLARED": {"DECLARED", "C08", runCopyOnly, nil,
 		"each call is judged by the rules declared for it: the per-type rule information shared through the type cache is never written by a walker (rule C08-COPY)", 1},
-	"STATE": {"STATE", "C11", func(c *Ctx) { runC11Global(c, "C11"); runC11Pool(c, "C11"); runPoolReleaseLast(c, "C11-POOL") }, nil,
+	"STATE": {"STATE", "C11", func(c *Ctx) {
+		runC11Global(c, "C11")
+		runC11Pool(c, "C11")
+		runPoolReleaseLast(c, "C11-POOL")
+		runPoolReleaseOnce(c, "C11-POOL")
+		runGlobalMapAlias(c, "C11-GLOBAL")
+	}, nil,
 		"no state survives from one call to the next or is shared between concurrent calls: recycled validators/buffers are fully re-initialised and released last, no package-level variable is written on a validation path (rules C11-POOL, C11-GLOBAL)", 10},
 	"ALIAS": {"ALIAS", "C12", runC12Unsafe, nil,
 		"text handed out by the splitter never aliases a buffer that is written or recycled afterwards (rule C12-UNSAFE)", 3},
 	"LOOP": {"LOOP", "C02", runC02Loop, nil,
 		"every walker evaluates every rule item of every field/entry: its loops leave only through their headers (rule C02-LOOP)", 4},
-	"TEXT": {"TEXT", "C14", func(c *Ctx) { runC14Parse(c); runC14(c); runC14Stack(c); runC14Split(c); runC14SplitterUse(c) }, ruleIn("C14-PARSE", "C14-GUARD", "C14-ORDER", "C14-FIRST", "C14-FAST", "C14-SPLIT", "C14-STACK", "C14-USE", "C14-VERBATIM"),
+	"TEXT": {"TEXT", "C14", func(c *Ctx) {
+		runC14Parse(c)
+		runC14(c)
+		runC14Stack(c)
+		runC14Split(c)
+		runC14SplitterUse(c)
+		runConvIdentity(c, "C14-CONV")
+	}, ruleIn("C14-CONV", "C14-PARSE", "C14-GUARD", "C14-ORDER", "C14-FIRST", "C14-FAST", "C14-SPLIT", "C14-STACK", "C14-USE", "C14-VERBATIM"),
 		"the rule text is split into items and parsed into key, value and message faithfully (rules C14-PARSE, C14-FAST, C14-SPLIT, C14-STACK, C14-USE; C14-GUARD/ORDER/FIRST/VERBATIM when the parser's table is not decided)", 10},
 	"MAT": {"MAT", "C02", runC02Mat, nil,
 		"the clauses accumulated by a call are returned unchanged: groups evaluated before the emptiness test, nil iff empty, exactly one trailing separator removed (rule C02-MAT)", 8},
 	"LRU": {"LRU", "C09", runC09, nil,
 		"the default cache is a correct bounded map for every capacity, zero included (rules C09-*)", 8},
+	"RULESRC": {"RULESRC", "C16", runC16, ruleIn("C16-SCOPE", "C16-REPLACE", "C16-API"),
+		"the rule text evaluated for a field is the one in force for that object in this call: the programmatic rule when one is set, else the tag rule; the unscoped rule set only for the outermost object, a type-scoped set for every object of its type (rules C16-SCOPE, C16-REPLACE, C16-API)", 3},
+	"EXPORT": {"EXPORT", "C04", func(c *Ctx) { runExportPred(c, "C04-EXPORT") }, nil,
+		"every exported field is visited and no unexported one: the export predicate is exactly 'first byte in A..Z' on the field name (rule C04-EXPORT) — a field wrongly taken for unexported is skipped silently with all its rules", 1},
+	"ZEROSKIP": {"ZEROSKIP", "C03", runC03, ruleIn("C03-SKIP"),
+		"a rule function is called exactly when the very value it receives is non-empty (IsZero false; for URL parameters the decoded string compared with \"\"), in every walker (rule C03-SKIP) — a walker with a different notion of empty accepts inputs the rule's language excludes and disagrees with its siblings", 4},
+	"FACADE": {"FACADE", "C18", func(c *Ctx) { runFacadeForward(c, "C18-FORWARD") }, nil,
+		"every exported entry point hands each of its parameters (value, rule set, function table, tag name) on to the validator object on every path (rule C18-FORWARD) — a parameter dropped by a wrapper means the call is judged under the default tag / without the rules or functions the caller supplied", 25},
 	"LABEL": {"LABEL", "C15", runC15Label, nil,
 		"a parsed message gains exactly its explanation label: Chinese label iff the message contains a CJK character of [\\x{4e00}-\\x{9fa5}], else the English one (rule C15-LABEL)", 3},
 }
